@@ -144,7 +144,10 @@ class World:
         if kind == "spawn":           # ("spawn", pid, as_zombie, ppid?)
             pid = op[1]
             comm = op[4].encode("latin-1") if len(op) > 4 and op[4] is not None else b"p%d" % self.tick
-            p = t.spawn(pid, self.tick, ppid=(op[3] if len(op) > 3 and op[3] is not None else 1), comm=comm)
+            p = t.spawn(pid, self.tick, ppid=(op[3] if len(op) > 3 and op[3] is not None else 1), comm=comm[:15])
+            if len(comm) > 15:
+                # a kernel worker: the status file spells out the work-queue description (up to 63 bytes), stat keeps 15
+                p.status_name = comm
             if len(op) > 2 and op[2]:
                 t.exit(pid, 0)
             rec["inc"] = p.inc
